@@ -328,7 +328,7 @@ fn main() {
     run.cov(
         "rule",
         "integer: every (start,end) of a..b, a..=b, ..b, ..=b, .. for i8/u8 (thorough: also every ..b, ..=b for i16/u16) and all pairs of boundary values (0, +-small, 2^k+-1, MIN+d, MAX-d, a quarter / half / three quarters of the way to MIN and to MAX +-1, round decimal bounds 10^k, 5*10^k) + boundary lengths (1,2,3,2^k,2^k+-1,MAX, three quarters of the span +-1, span-d, full) anchored to start and to end at every boundary value for the wider types - so every type incl. isize/usize has ranges of more than half its span from MIN, to MAX and touching neither end, and the longest range of every form MIN..MAX, MIN..=MAX, ..MAX, ..=MAX, .. (counted per type and form, their absence is a machinery failure) -, each crossed with the raw alphabet R(len) (0..=2len, top of u64, neighbours of multiples of len near 2^8..2^64, powers of two, ceil(k*2^64/len)); float: all ordered pairs of a 20-value boundary grid x 2300 raw values; generator: all seeds of the stated sets. \
-         seeds: every seed-quantified family runs on a dense interval [0,S) and on structured 64-bit seeds - every single bit 1<<k, 3/5/42/0xab/0xabc shifted to every position, only-low-bits masks 2^k-1, only-high-bits masks !0<<k, 2^k+1, all ones but one bit, the top bit plus one bit, every top byte b<<56, u64::MAX-j (j<=16), alternating and half-word patterns (the core = single bits, MAX, MAX-1, patterns); determinism: [0,S) + boundary + the structured alphabet; shuffle: [0,S) (rearrangement, every rearrangement of len<=6 reached, counts within [1/2,2] x mean) and the structured family = every odd m < 2^12 (thorough 2^14) shifted to every position + the structured alphabet (rearrangement, every rearrangement of len<=6 reached). \
+         seeds: every seed-quantified family runs on a dense interval [0,S) and on structured 64-bit seeds - every single bit 1<<k, 3/5/42/0xab/0xabc shifted to every position, only-low-bits masks 2^k-1, only-high-bits masks !0<<k, 2^k+1, all ones but one bit, the top bit plus one bit, every top byte b<<56, u64::MAX-j (j<=16), alternating and half-word patterns (the core = single bits, MAX, MAX-1, patterns); determinism: [0,S) + boundary + the structured alphabet (same seed twice, interleaved, copies; for every 16th dense seed and all others also a generator built on another thread and one moved to another thread); shuffle: [0,S) (rearrangement, every rearrangement of len<=6 reached, counts within [1/2,2] x mean) and the structured family = every odd m < 2^12 (thorough 2^14) shifted to every position + the structured alphabet (rearrangement, every rearrangement of len<=6 reached). \
          serial structure: for every integer type and every value-set size n in {2..16, 32, 64, 128, 255, 256} (16-bit types: also 2^9..2^15 and 65535) every range form denoting n values (a..a+n and a..=a+n-1 for a in {0, MIN, 1}, ..n, ..=n-1), and for the 8- and 16-bit types the full-width forms (.., MIN..=MAX, ..=MAX): the stream of consecutive draws from every seed of the case has no period p <= max(n, tier base), searched in a stream of at least 3 periods (seeds per case: [0,S), S stated in period_seeds_per_case_plain_forms_long for plain next(0..len) on usize / the other cases / streams longer than the tier base, followed by the whole structured alphabet for the plain cases and its core for the other cases). \
          two builds: the whole enumeration is executed in the release profile and, as a child process, in the dbg profile (same optimisation, debug assertions and integer overflow checks on, like `cargo test`), where a panic on an in-domain case is a violation (signature prefix dbg:); empty ranges are skipped before the call in both. \
          distinct_nontrivial = number of distinct integer (type,form,range) cases + float ranges whose draws produced at least two different in-range values (measured)",
